@@ -20,7 +20,9 @@ RULE = ('programs drawn by the concolic generator (vlib/prog.py) at K=4 probe po
         'composition buckets (2..10 instructions over all families); per case D in 1..5, P in 1..3 with a different base '
         'point per direction, dense higher coefficients, dense adjoint seed and direction polynomials; graph recorded with '
         'ndarray or UTPM inputs at a further point.  Non-trivial = D >= 2 and the program contains a non-linear operation '
-        'and the seed has >= 2 non-zero orders; distinct by descriptor hash')
+        'and the seed has >= 2 non-zero orders; distinct by descriptor hash.  Further buckets: nopullback:* (operations without a pullback: '
+        'raise or return a correct adjoint), op:eig (D = 1), two dependents, mixed-plain-input (one of two inputs evaluated as a plain array, '
+        'P = 1: raise or correct)')
 ASSUMPTIONS = [
     'F\'(x(t))v(t) comes from algopy forward mode at degree 2D (validated independently by C01/C02/C07/C08/C12)',
     'tolerance 1e-8 relative to max(1, sum of absolute values of the terms of both pairings, 1e-5 * largest intermediate Taylor coefficient of the forward reference) - the last term is the rounding floor eps*mag of the reference itself',
